@@ -164,6 +164,7 @@ fn main() {
                     std::process::exit(2);
                 }
             }
+            o.obs("client_sockets_on_ports_below_1024", inproc::LOW_PORT_SOCKETS.load(std::sync::atomic::Ordering::Relaxed) as i64);
             let j = o.to_json(&ctx);
             let path = arg(&args, "--out").expect("--out");
             std::fs::write(&path, serde_json::to_vec(&j).unwrap()).expect("write shard output");
